@@ -73,6 +73,17 @@ def upper_bound(F, v, depth=0):
         if a == INF or c == INF:
             return top
         return min((1 << max(int(a).bit_length(), int(c).bit_length())) - 1, top)
+    if I.op == "udiv":
+        c = F.const_int(I.ops[1])
+        a = min(upper_bound(F, I.ops[0], depth + 1), top)
+        if c and a != INF:
+            return int(a) // c
+        return a
+    if I.op == "urem":
+        c = F.const_int(I.ops[1])
+        if c:
+            return c - 1
+        return min(upper_bound(F, I.ops[0], depth + 1), top)
     if I.op == "lshr":
         c = F.const_int(I.ops[1])
         a = min(upper_bound(F, I.ops[0], depth + 1), top)
@@ -357,6 +368,16 @@ def run(chk):
                         packs.append((i, new[PARENT[i.reg(0)]], 4))
                 elif i.mem < 0 and op in ("OR64rr", "OR32rr") and PARENT.get(i.reg(1)) in st and PARENT.get(i.reg(2)) not in st:
                     new[PARENT[i.reg(0)]] = st[PARENT[i.reg(1)]]
+                elif i.mem < 0 and op in ("ADD64rr", "ADD32rr") and PARENT.get(i.reg(1)) in st and i.reg(1) == i.reg(2):
+                    new[PARENT[i.reg(0)]] = st[PARENT[i.reg(1)]] + 1          # x + x = x << 1
+                    if op == "ADD32rr":
+                        packs.append((i, new[PARENT[i.reg(0)]], 4))
+                elif op in ("LEA64r", "LEA32r", "LEA64_32r") and i.memop() and not i.memop()[4] and i.memop()[2] and PARENT.get(i.memop()[2]) in st \
+                        and (not i.memop()[0] or PARENT.get(i.memop()[0]) not in st) and (i.memop()[1] or 1) in (1, 2, 4, 8) and 0 <= (i.memop()[3] or 0) < 64:
+                    mo = i.memop()
+                    new[PARENT[i.reg(0)]] = st[PARENT.get(mo[2])] + {1: 0, 2: 1, 4: 2, 8: 3}[mo[1] or 1]   # index * scale (+ lane)
+                    if op != "LEA64r":
+                        packs.append((i, new[PARENT[i.reg(0)]], 4))
                 elif i.mem < 0 and op in ("ADD64rr", "ADD32rr") and (PARENT.get(i.reg(1)) in st) != (PARENT.get(i.reg(2)) in st):
                     new[PARENT[i.reg(0)]] = st.get(PARENT.get(i.reg(1)), st.get(PARENT.get(i.reg(2))))
                 elif op in ("LEA64r", "LEA32r", "LEA64_32r") and i.memop() and (i.memop()[1] or 1) == 1 and not i.memop()[4] \
